@@ -140,6 +140,21 @@ def check(g, gi, boxname, b, inputs, res, only=None):
     # a cyclic grammar whose reduce/reduce conflicts are resolved by priority may loop by construction (the winner is
     # the cycle): judged only where the reference automaton does not loop either
     may_loop = refsem.cyclic(g) and any(r_.prio for r_ in g.rules.values())
+    prio_resolved = bool(ref.rr_resolved_by_priority()) and not rr
+
+    def ref_loops(toks_, last):
+        """Does the priority-resolved *reference* automaton loop on this feed?  (Also consulted for non-reduced grammars: a
+        reduce/reduce conflict resolved by the user's priorities towards an empty rule can loop by construction.)"""
+        if not prio_resolved:
+            return False
+        s_ = ref.sim()
+        for t_ in toks_:
+            r_ = s_.feed(('tok', t_))
+            if r_ == 'loop':
+                return True
+            if r_ != 'shift':
+                return False
+        return s_.feed(('tok', last) if last != '$END' else reflalr.END) == 'loop'
     ip0 = p.parse_interactive().as_immutable()
     sim0 = ref.sim() if not rr else None
     frontier = [(ip0, sim0, ())]
@@ -158,7 +173,7 @@ def check(g, gi, boxname, b, inputs, res, only=None):
             acc = util.timed(ip.accepts, 3)
             res['transitions'] += len(terms) + 1
             if acc[0] != 'ok':
-                if (not reduced and may_loop) or (use_sim and any(sim.copy().feed(('tok', t) if t != '$END' else reflalr.END) == 'loop' for t in list(terms) + ['$END'])):
+                if (not reduced and may_loop) or any(ref_loops(toks, t) for t in list(terms) + ['$END']) or (use_sim and any(sim.copy().feed(('tok', t) if t != '$END' else reflalr.END) == 'loop' for t in list(terms) + ['$END'])):
                     res['counters']['diverges exactly where the priority-resolved reference automaton loops (cyclic grammar)'] += 1
                     return
                 bad('accepts-failed', 'accepts-hang' if acc[0] == 'hang' else 'accepts', 'a set', repr(acc), tokens=list(toks))
@@ -176,7 +191,7 @@ def check(g, gi, boxname, b, inputs, res, only=None):
             res['transitions'] += 1
             is_acc = e[0] == 'ok'
             if e[0] == 'hang':
-                if (use_sim and sim.copy().feed(reflalr.END) == 'loop') or (not reduced and may_loop):
+                if (use_sim and sim.copy().feed(reflalr.END) == 'loop') or (not reduced and may_loop) or ref_loops(toks, '$END'):
                     res['counters']['diverges exactly where the priority-resolved reference automaton loops (cyclic grammar)'] += 1
                     return
                 bad('feed_eof-hang', 'hang', 'terminates', 'watchdog', tokens=list(toks))
@@ -201,7 +216,7 @@ def check(g, gi, boxname, b, inputs, res, only=None):
                 f = util.timed(lambda: ip.feed_token(Token(t, t.lower())), 3)
                 res['transitions'] += 1
                 res['traces'] += 1
-                if f[0] == 'hang' and ((not reduced and may_loop) or (use_sim and sim.copy().feed(('tok', t)) == 'loop')):
+                if f[0] == 'hang' and ((not reduced and may_loop) or ref_loops(toks, t) or (use_sim and sim.copy().feed(('tok', t)) == 'loop')):
                     res['counters']['diverges exactly where the priority-resolved reference automaton loops (cyclic grammar)'] += 1
                     return
                 if f[0] == 'hang':
@@ -248,7 +263,7 @@ def check(g, gi, boxname, b, inputs, res, only=None):
                 pr = larkio.parse(p2, w, timeout=3)
                 res['evals'] += 1
                 o = larkio.outcome(pr)
-                if o == 'hang' and may_loop and (not reduced or not use_sim or _sim_loops(ref, toks)):
+                if o == 'hang' and ((may_loop and (not reduced or not use_sim or _sim_loops(ref, toks))) or ref_loops(toks, '$END') or any(ref_loops(toks[:i_], toks[i_]) for i_ in range(len(toks)))):
                     res['counters']['diverges exactly where the priority-resolved reference automaton loops (cyclic grammar)'] += 1
                     break
                 if o not in ('accept', 'reject'):
